@@ -20,6 +20,7 @@ type evaluator struct {
 }
 
 func (e *evaluator) evaluate(node parser.Node, current any, variables *variableScope) (any, error) {
+	step(node)
 	switch node := node.(type) {
 	case *parser.AbsNode:
 		arg, err := e.evaluate(node.Argument, current, variables)
